@@ -13,7 +13,10 @@
 // year end/start, last hour of a day + first hour of the next day); 1-3 metrics with 1-5 fields
 // of type sum/min/max/last/first, 1-5 series, values k/8; a history of write / flush (all or
 // some families) / rollup (kv.VerifRollup per family, or Store.ForceRollup) / reopen steps,
-// optionally one crash image taken between two manifest commits of a rollup job, and up to 3
+// optionally one crash image taken between two manifest commits of a rollup job, optionally 1-2
+// harness-owned interleavings (a write + flush of a source family runs on the rollup job's
+// goroutine at the moment the job has created an output table in the target family, so the new
+// source file is not an input of the running job and must keep waiting), and up to 3
 // queries `select f from m ... group by host,time(<target>)`.
 // Not generated (unsound input): targets that are not a whole multiple of the source or that
 // neither divide 1 h nor are a multiple of it (DatabaseOption.Validate accepts them, nothing
